@@ -28,7 +28,7 @@ def main():
         pkg = re.search(r'^package (\w+)', open(demo).read(), re.M).group(1)
         pdir = PKGDIR[pkg.replace('_test', '')]
         demo_dst = os.path.join(wt, pdir, 'zz_seeded_demo_test.go')
-        race = '-race' if 'race' in open(os.path.join(d, 'meta.md')).read().lower() and os.path.basename(d) in ('C19', 'C20') else ''
+        race = '-race' if 'race' in open(os.path.join(d, 'meta.md')).read().lower() and os.path.basename(d)[:3] in ('C19', 'C20') else ''
         # without the change: demo passes
         shutil.copy(demo, demo_dst)
         rc0, out0 = sh('go test -vet=off -count=1 %s ./%s/' % (race, pdir), cwd=wt)
